@@ -103,9 +103,19 @@ func Do(addr string, req []byte, timeout time.Duration) (*Response, error) {
 	return DoHooked(addr, req, timeout, nil)
 }
 
+// DoParts writes the request in several parts with a pause before each part after the
+// first (a client whose body tail arrives late), then reads one response.
+func DoParts(addr string, parts [][]byte, gap time.Duration, timeout time.Duration) (*Response, error) {
+	return doHooked(addr, parts, gap, timeout, nil)
+}
+
 // DoHooked is Do with a callback invoked after every read that delivered payload bytes
 // (cumulative payload length); returning false aborts (closes) the connection.
 func DoHooked(addr string, req []byte, timeout time.Duration, onData func(total int) bool) (*Response, error) {
+	return doHooked(addr, [][]byte{req}, 0, timeout, onData)
+}
+
+func doHooked(addr string, parts [][]byte, gap time.Duration, timeout time.Duration, onData func(total int) bool) (*Response, error) {
 	start := time.Now()
 	c, err := net.DialTimeout("tcp", addr, 5*time.Second)
 	if err != nil {
@@ -113,8 +123,13 @@ func DoHooked(addr string, req []byte, timeout time.Duration, onData func(total 
 	}
 	defer c.Close()
 	_ = c.SetDeadline(time.Now().Add(timeout))
-	if _, err := c.Write(req); err != nil {
-		return nil, fmt.Errorf("write: %w", err)
+	for i, part := range parts {
+		if i > 0 && gap > 0 {
+			time.Sleep(gap)
+		}
+		if _, err := c.Write(part); err != nil {
+			return nil, fmt.Errorf("write: %w", err)
+		}
 	}
 	resp := &Response{}
 	tee := &teeReader{r: c, buf: &bytes.Buffer{}}
